@@ -203,6 +203,28 @@ register("C14",
     "Trusted: node classes (core nodes shared with the working copy; per-tree non-root node sets disjoint) as documented in hola.cpp.",
     "abstract interpretation of doHOLA over an additive padding domain + who-writes / constructor-argument rules",
     "DESIGN.md §5 C14")
+# clauses added in the later seeding rounds (kept separate so that the texts above stay readable)
+for _p, _t in {
+ "C01": "Added in later rounds: a new static Solver deactivates every constraint it takes over; IncSolver::addConstraint queues every in-block constraint for the split/violation scan.",
+ "C02": "Added in later rounds: refine's try budget is only spent on non-improving passes; the parked half of a split block is placed in the units of its own scale (both copies); split threshold is scale-free.",
+ "C03": "Added in later rounds: sweep border recording, free-side lines of both scan directions, totality of the sweep's edge ordering, shape blocking incl. corner touches, every path edge registered with its connector, outside-of-graph visibility fix, connector ends on a deleted obstacle are re-queued, chords through an obstacle with both ends on its boundary, enclosing shapes ignored for both end points alike.",
+ "C04": "Added in later rounds: checkAllMissingEdges visits every unordered pair; the sweep ordering is total; shape blocking incl. corner touches.",
+ "C05": "Added in later rounds: end-point direction sets; scan-segment list merge keeps every covered stretch (list iterators modelled with their stability); the cost-target set covers every arrival candidate; the final step into the target is charged.",
+ "C06": "Added in later rounds: enclosing shapes are ignored for both end points of a re-tested edge alike.",
+ "C07": "Added in later rounds: majorization rebuilds its projection per run; convergence test reset; FixedRelativeConstraint offsets taken from the sorted id list; run(x,y) projects both axes on every path and reports unsatisfiable constraints of the idle axis; processed non-overlap pairs are never offered again.",
+ "C08": "Added in later rounds: a node shared by two sibling clusters gets a replacement entry in both directions; fixed-rectangle clusters are recognised for every rectangle index incl. 0.",
+ "C10": "Added in later rounds: connector-pair ids keep their full width; overlapsWith counts touching free intervals; the gap of a reduced group is rewritten whatever the group ends at.",
+ "C12": "Added in later rounds: HyperedgeImprover::execute leaves no connector of a junction out, updates connector ends for every root under major changes and writes every root back in both passes; newAndDeletedObjectLists serves every processed hyperedge after the transaction; terminal roles (source end, end vertex) survive the removal of zero-length edges.",
+ "C13": "Added in later rounds: segment/node attachment decided by node id; resize copies back the extent the solver reached; of two coincident bends the redundant one is pruned.",
+ "C14": "Added in later rounds: alignments returned for the core are dropped when planarisation no longer maintains them; Tree::addConstraints aligns the middle child only when it is in line.",
+ "C15": "Added in later rounds: arrays of scalars are initialised before use in constructors; copies of owning classes re-own or are deleted.",
+ "C16": "Added in later rounds: Rectangle(corner, corner) yields the same winding for all four corner orders; segmentShapeIntersect incl. the corner touch.",
+ "C17": "Added in later rounds: the neighbour matrix G is written for every pair incl. the diagonal.",
+ "C18": "Added in later rounds: subset transforms visit every listed pair; two-argument addFixedRelativeSep honours flipped retrieval; Graph assignment / swap re-points the SepMatrix back-pointers.",
+ "C19": "Added in later rounds: x/y twins of the planariser mirror each other.",
+ "C20": "Added in later rounds: const static locals with run-time initialisers; arrays of scalars initialised in constructors; the layout constructor resets the caller's convergence test.",
+}.items():
+    CHECKS[_p]["text"] = CHECKS[_p]["text"].rstrip() + " " + _t
 for _p, _r in {
 }.items():
     na(_p, _r)
